@@ -9,8 +9,7 @@ Mirrors, statement by statement,
 * `sciparse/src/proto/payload/scmp/layout.rs` (`*Layout::from_offending_packet_length`) – `quoteLen`;
 * `sciparse/src/proto/payload/scmp/model.rs` (`encode_unchecked` of every error kind and of echo request/reply);
 * `sciparse/src/proto/header/model.rs` (`ScionPacketHeader::encode_unchecked`, `wire_valid`) – `encodeHeader`;
-* `scion-stack/src/stack/scmp_handler/{echo,error}.rs`, the SCMP branch of the socket receive loops
-  (`stack/socket.rs`) and pocketscion's `maybe_create_scmp_reply` (second half of this file).
+(the handlers, the socket receive loop and pocketscion's `maybe_create_scmp_reply` are modelled in `Model/ScmpHandler.lean`).
 
 Core-only. All numeric data comes from `Generated/Scmp.lean`.
 -/
